@@ -141,7 +141,7 @@ fn any_ascii(buf: &mut [u8; L]) -> &str {
 //@ note: fen_piece is total (the unreachable!() arm is unreachable): it accepts exactly the twelve letters PNBRQKpnbrqk, returns the piece the letter denotes (upper case = White) and the rest of the input after that one byte; anything else (empty input included) is a parse error
 //@ assumes: ghost nom library (support/gnom.rs) stands for the nom crate's combinators as documented
 #[kani::proof]
-#[kani::unwind(12)]
+#[kani::unwind(14)]
 fn vk_c06_reader_piece_letter() {
     let mut buf = [0u8; L];
     let s = any_ascii(&mut buf);
